@@ -11,5 +11,6 @@ CONSTANTS
  Cancels = FALSE
  Failures = FALSE
  Timeouts = TRUE
+ Evictions = FALSE
 CONSTRAINT Bound
 INVARIANT NoSecondInvocation
